@@ -25,6 +25,12 @@
 (*            PathClass)                                                   *)
 (*   Verify   verifier.Verify / VerifyVP: the ordered sequence of checks   *)
 (*                                                                         *)
+(* Deviations of the code from the statement are named by the boolean      *)
+(* CONSTANTS below: all TRUE = prescriptive variant (TLC proves the three  *)
+(* invariants), all FALSE = the code as it is (cases are generated from    *)
+(* it; AcceptOnlyIf / TamperEvident are violated there, which TLC shows in *)
+(* cfg/Verify.c01.deviation*.cfg).                                         *)
+(*                                                                         *)
 (* Time: points 0..8, Now = 9 (validation time nil).  Documents carry      *)
 (* dates on even points, validation happens on odd points, so no verdict   *)
 (* depends on the (format specific) treatment of equal time stamps.        *)
@@ -257,7 +263,9 @@ Verify ==
          ELSE VerifyVP(c, doc, c.at)
     /\ pc' = "done" /\ Log([a |-> "Verify", res |-> verdict']) /\ UNCHANGED <<c, doc>>
 
-Next == (pc = "start" /\ \E x \in Cases : Choose(x)) \/ Issue \/ Forge \/ Present \/ Mutate \/ Verify
+\* (the guard stands in front of the quantifier so that TLC builds the set of cases in the initial state only)
+ChooseAny == pc = "start" /\ \E x \in Cases : Choose(x)
+Next == ChooseAny \/ Issue \/ Forge \/ Present \/ Mutate \/ Verify
 Spec == Init /\ [][Next]_vars
 
 (***************************************************************************)
@@ -293,7 +301,6 @@ Done == pc = "done"
 AcceptOnlyIf == (Done /\ c.fam # "mut" /\ verdict = "ok") => Conjuncts(c)
 TamperEvident == (Done /\ c.fam = "mut" /\ Semantic(c)) => verdict # "ok"
 OwnOutputVerifies == (Done /\ c.fam # "mut" /\ Own(c) /\ Conjuncts(c)) => verdict = "ok"
-\* the model's own expectation is consistent: a predicted verdict never contradicts the requirement
 TypeOK == /\ pc \in {"start", "chosen", "issued", "presented", "mutated", "done"}
           /\ Done => verdict # None
 =============================================================================
